@@ -67,7 +67,12 @@ func MapWithErrAndCtx[SRC any, TGT any](
 			if err != nil {
 				return util.DefaultValue[TGT](), err
 			}
-			return mapper(ctx, v)
+			tgt, err := mapper(ctx, v)
+			if err != nil {
+				// Wrapping errors, e.g. we don't want EOF accidentally returned from here
+				return util.DefaultValue[TGT](), fmt.Errorf("map failed for Stream: %w", err)
+			}
+			return tgt, nil
 		}, src.allLifecycleElement,
 	)
 }
